@@ -15,7 +15,9 @@ CHECKS["C01"] = dict(
           "deliver-to / drop / duplicate / timeout / timeout-all / partition / heal / FIFO burst / actor action with 13 kinds). "
           "Oracle after every step: each honest commit log is hash-linked from genesis with strictly increasing views and no "
           "repetition, and honest logs are pairwise prefix-related. Non-trivial = some honest replica committed and at least "
-          "one fault occurred (drop, partition, timeout, duplicate, scenario drop, twin, actor message); distinct = config+schedule."),
+          "one fault occurred (drop, partition, timeout, duplicate, scenario drop, twin, actor message); distinct = config+schedule. "
+          "TestC01FastAggregate focuses the same oracle on Fast-HotStuff with frequent timeouts and an actor that replays old "
+          "aggregate QCs, withholds / releases proposals and equivocates after view changes."),
     assumptions=["the simulator's sender/clock/crypto-tap edges and the fast keyed-hash base are trusted",
                  "schedules are sampled; n limited to {4,7}; the event-queue overflow of production (capacity 100) is not modelled"],
 )
